@@ -137,6 +137,16 @@ def run_login(w, sc, mon):
         decide("session_key_byte", i, sc["user"], bytes(k2), want, cs)
     for bit in (range(160) if full else rnd.sample(range(160), 3)):
         decide("proof_bitflip", bit, sc["user"], K, flipbit(want, bit), cs)
+    canc = [("reversed", want[::-1]), ("rotated", want[1:] + want[:1])]
+    for _ in range(6 if full else 1):
+        i, j = rnd.sample(range(20), 2)
+        bit = 1 << rnd.randrange(8)
+        xx = bytearray(want)
+        xx[i] ^= bit
+        xx[j] ^= bit
+        canc.append(("same_bit_in_two_bytes", bytes(xx)))
+    for name, pp in (canc if full else rnd.sample(canc, 2)):
+        decide("proof_cancelling_change", name, sc["user"], K, pp, cs)
     for k in ((1, 4, 10, 19) if full else (rnd.choice([1, 19]),)):
         decide("proof_truncated", k, sc["user"], K, want[:k] + bytes(20 - k), cs)
     other = un[:-1] + ("Y" if un[-1] != "Y" else "Z")
@@ -162,6 +172,40 @@ def make(rnd, x, full, boundary):
     return sc
 
 
+def related_history(w, rnd, mon, x):
+    """Consecutive logins on one executor thread that share the name and the session key while the seeds are related
+    (swapped, same XOR, same sum, one equal), then the same seeds with session keys sharing a long prefix / suffix. A value
+    remembered from an earlier login (partial cache key) shows up as a wrong proof or a wrong decision here."""
+    base = make(rnd, x, False, False)
+    c, s_ = rnd.getrandbits(32), rnd.getrandbits(32)
+    d = rnd.getrandbits(32) | 1
+    pairs = [(c, s_), (s_, c), (c ^ d, s_ ^ d), (c, s_), ((c + d) & 0xFFFFFFFF, (s_ - d) & 0xFFFFFFFF), (c, c), (s_, s_), (c, s_ ^ d), (c ^ d, s_)]
+    for (a, b) in pairs:
+        sc = dict(base)
+        sc["cseed"], sc["sseed"] = a, b
+        sc["pseed"] = rnd.getrandbits(32)
+        run_login(w, sc, mon)
+        mon.count("related_seed_logins")
+    K = bytearray(bytes.fromhex(base["K"]))
+    for pos in (39, 0, 8, 20, 32):
+        K2 = bytearray(K)
+        K2[pos] ^= 1 << rnd.randrange(8)
+        sc = dict(base)
+        sc["K"] = bytes(K2).hex()
+        sc["cseed"], sc["sseed"] = c, s_
+        sc["pseed"] = rnd.getrandbits(32)
+        run_login(w, sc, mon)
+        mon.count("related_key_logins")
+    for name in (base["user"][:-1] or "Q", base["user"] + "x" if len(base["user"]) < 16 else base["user"][:15], base["user"].swapcase()):
+        sc = dict(base)
+        sc["user"] = name
+        sc["cuser"] = name
+        sc["cseed"], sc["sseed"] = c, s_
+        sc["pseed"] = rnd.getrandbits(32)
+        run_login(w, sc, mon)
+        mon.count("related_name_logins")
+
+
 def worker(idx, nworkers, tier, seed, extra):
     mon = Monitor()
     rnd = rng_for(seed, "c06", idx)
@@ -173,6 +217,8 @@ def worker(idx, nworkers, tier, seed, extra):
                 run_login(w, make(rnd, x, True, i % 2 == 0), mon)
             for i in range(nsamp):
                 run_login(w, make(rnd, x, False, rnd.random() < 0.25), mon)
+                if i % 100 == 0:
+                    related_history(w, rnd, mon, x)
             # identical inputs through the three modules are compared with the same model => they agree
     except ExecutorDied as e:
         mon.violation("c06:executor_died", "executor died rc=%s" % e.rc, {"engine": "wsx", "kind": "raw", "commands": e.last_cmds})
